@@ -88,7 +88,8 @@ int epoll_wait(int epfd, struct epoll_event *events, int maxevents, int timeout)
 	{ int w = 0; for (int i = 0; i < ns; i++) { struct sigaction sa; if (sigaction(sg[i], NULL, &sa) == 0 && sa.sa_handler != SIG_DFL && sa.sa_handler != SIG_IGN) sg[w++] = sg[i]; } ns = w; }
 	for (int i = 0; i < ns; i++) raise(sg[i]);
 	uint64_t tmo_ns = timeout > 0 ? (uint64_t)timeout * 1000000ULL : 0;
-	if (mode == 'T') adv = tmo_ns; else if (timeout >= 0 && adv > tmo_ns) adv = tmo_ns;
+	/* 'T': sleep the whole timeout; like a real poll call it returns a little after the deadline */
+	if (mode == 'T') adv = tmo_ns + 1001000; else if (timeout >= 0 && adv > tmo_ns) adv = tmo_ns;
 	if (adv > UINT64_MAX - vnow) adv = UINT64_MAX - vnow;
 	vnow += adv;
 	for (int i = 0; i < nr && n < maxevents; i++)
@@ -135,7 +136,7 @@ static int32_t fd_cb(int32_t fd, int32_t revents, void *data)
 static int32_t sig_cb(int32_t signo, void *data) { struct item *it = data; vt_ev("CbSig"); vt_i(it->id); vt_res(); vt_end(); run_body(it->bid, it); return 0; }
 
 static int idarg(struct vt_line *L, int t, struct item *self) {
-	if (!strcmp(L->tok[t], "new")) return fresh_id++;
+	if (!strcmp(L->tok[t], "new")) return nitems > 400 ? -7 : fresh_id++;   /* bound run-away self-multiplying workloads */
 	if (!strcmp(L->tok[t], "self")) return self ? self->id : -1;
 	return atoi(L->tok[t]);
 }
@@ -147,6 +148,7 @@ static void exec_op(struct vt_line *L, int t0, int n, struct item *self, int sel
 	const char *op = L->tok[t0];
 	if (!strcmp(op, "JobAdd")) {
 		int id = idarg(L, t0 + 1, self);
+		if (id == -7) return;
 		if (find(K_JOB, id)) return;
 		struct item *it = mk(K_JOB, id); it->p = A(2); it->bid = bidarg(L, t0 + 3, self_bid);
 		int rc = qb_loop_job_add(lp, it->p, it, job_cb);
@@ -158,6 +160,7 @@ static void exec_op(struct vt_line *L, int t0, int n, struct item *self, int sel
 		vt_ev(op); vt_i(it->id); vt_res(); vt_i(rc); vt_end();
 	} else if (!strcmp(op, "TimerAdd")) {
 		int id = idarg(L, t0 + 1, self);
+		if (id == -7) return;
 		if (find(K_TIMER, id)) return;
 		struct item *it = mk(K_TIMER, id); it->p = A(2); it->bid = bidarg(L, t0 + 6, self_bid);
 		uint64_t d = from3(A(3), A(4), A(5));
@@ -174,6 +177,7 @@ static void exec_op(struct vt_line *L, int t0, int n, struct item *self, int sel
 		vt_ev(op); vt_i(it->id); vt_res(); vt_i(run ? 1 : 0); vt_t3(rem); vt_end();
 	} else if (!strcmp(op, "PollAdd")) {
 		int id = idarg(L, t0 + 1, self);
+		if (id == -7) return;
 		if (find(K_FD, id)) return;
 		struct item *it = mk(K_FD, id); it->fd = A(2); it->p = A(3); it->ev = A(4); it->ret = A(5); it->bid = bidarg(L, t0 + 6, self_bid);
 		int rc = qb_loop_poll_add(lp, it->p, it->fd, it->ev, it, fd_cb);
@@ -201,6 +205,7 @@ static void exec_op(struct vt_line *L, int t0, int n, struct item *self, int sel
 		vt_ev(op); vt_i(fd); vt_res(); vt_end();
 	} else if (!strcmp(op, "SigAdd")) {
 		int id = idarg(L, t0 + 1, self);
+		if (id == -7) return;
 		if (find(K_SIG, id)) return;
 		struct item *it = mk(K_SIG, id); it->signo = A(2); it->p = A(3); it->bid = bidarg(L, t0 + 4, self_bid);
 		int rc = qb_loop_signal_add(lp, it->p, it->signo, it, sig_cb, &it->sh);
